@@ -177,6 +177,16 @@ def configs(t):
              triggers=[['rpc', 0, 'start_application', ['LESS_LOADED', 'A', False]]], user_events=[], T=3, D=1,
              behaviours=['run', 'exit_bad', 'backoff', 'giveup'], cost=6),
     ]
+    # a duplicate conciliated by Supvisors: every instance must end with the view of the survivors
+    for st in ('SENICIDE', 'INFANTICIDE', 'STOP', 'RESTART'):
+        out.append(base(f'n2-conciliation-{st}', apps=[app('A', 0, [prog('a', 1)])],
+                        options={'conciliation_strategy': st},
+                        setup=[['rpc', 0, 'start_process', ['CONFIG', 'A:a', '', False]]] + [['tick', i] for i in (0, 1)] * 3,
+                        user_events=[['ustart', 1, 'A:a']], U=1, T=4, behaviours=['run', 'stopped'], cost=5))
+    out.append(base('n3-conciliation-SENICIDE', n=3, apps=[app('A', 0, [prog('a', 1)])],
+                    options={'conciliation_strategy': 'SENICIDE'},
+                    setup=[['rpc', 0, 'start_process', ['CONFIG', 'A:a', '', False]]] + [['tick', i] for i in (0, 1, 2)] * 3,
+                    user_events=[['ustart', 2, 'A:a']], U=1, T=3, behaviours=['run', 'stopped'], cost=8))
     if t == 'thorough':
         deep = []
         for c in out:
@@ -203,7 +213,7 @@ def main():
     out, complete = run_e1(
         'C12', [(DRIVER, cfgs, kwargs_of)],
         rule='explicit-state exploration of 1-2 processes changing state (direct Supervisor starts / stops, exits, backoffs, '
-             'starts by Supvisors) on 2-3 instances during the cold start, in OPERATION, while a third instance joins late, '
+             'starts by Supvisors, duplicates conciliated by each automatic strategy) on 2-3 instances during the cold start, in OPERATION, while a third instance joins late, '
              'crashes, restarts or a partition heals; at every quiescent state (no pending message, no handshake in progress) '
              'the process views of all live connected instances are compared with each other and with the true Supervisor '
              'process tables of the instances they see RUNNING',
